@@ -399,4 +399,77 @@ C12_Failures(rec) ==
            k == rec.toks[rec.intact]
        IN IF PosGE(e.sl, e.sc, k.sl, k.sc) THEN {} ELSE {"first_error_before_last_intact_token"}
 
+---------------------------------------------------------------------------
+(***************************************************************************)
+(* Operator-precedence well-formedness on the DOCUMENTED level scale of    *)
+(* xjs (LOWEST = 1 .. MEMBER = 12), for trees that mix built-in operators  *)
+(* with registered ones.  CL: custom infix operator name -> level.         *)
+(* A registered prefix operator has the level of the built-in unary        *)
+(* operators, a registered postfix operator that of a call.                *)
+(* Declarative (no parsing algorithm): for every operator node, nothing on *)
+(* the facing spine of an operand may bind looser than the node itself.    *)
+(***************************************************************************)
+XFix(n) ==
+  CASE n.k \in {"bin", "cbin", "asg", "casg", "mem"} -> "infix"
+    [] n.k \in {"un", "cun"} -> "prefix"
+    [] n.k \in {"post", "cpost", "call", "idx"} -> "postfix"
+    [] OTHER -> "atom"
+XLevel(n, CL) ==
+  CASE n.k = "bin" -> ESBinLevel(n.op)
+    [] n.k \in {"asg", "casg"} -> 2
+    [] n.k \in {"un", "cun"} -> 9
+    [] n.k = "post" -> 10
+    [] n.k \in {"call", "cpost"} -> 11
+    [] n.k \in {"idx", "mem"} -> 12
+    [] n.k = "cbin" -> CL[n.op]
+    [] OTHER -> 99
+RECURSIVE RSpine(_), LSpine(_)
+\* operator nodes whose last token is the last token of x / whose first token is its first
+RSpine(x) == IF IsNilNode(x) THEN {}
+             ELSE IF XFix(x) = "infix" THEN {x} \cup RSpine(x.c[2])
+             ELSE IF XFix(x) = "prefix" THEN {x} \cup RSpine(x.c[1]) ELSE {}
+LSpine(x) == IF IsNilNode(x) THEN {}
+             ELSE IF XFix(x) \in {"infix", "postfix"} THEN {x} \cup LSpine(x.c[1]) ELSE {}
+RECURSIVE WFX(_, _)
+WFX(n, CL) ==
+  /\ LET p == XLevel(n, CL) IN
+     CASE n.k \in {"bin", "cbin", "mem"} ->
+            /\ \A y \in RSpine(n.c[1]) : XLevel(y, CL) >= p
+            /\ \A y \in LSpine(n.c[2]) : XLevel(y, CL) > p
+       [] n.k \in {"asg", "casg"} ->
+            /\ \A y \in RSpine(n.c[1]) : XLevel(y, CL) > p
+            /\ \A y \in LSpine(n.c[2]) : XLevel(y, CL) >= p
+       [] XFix(n) = "prefix" -> \A y \in LSpine(n.c[1]) : XLevel(y, CL) > p
+       [] XFix(n) = "postfix" -> \A y \in RSpine(n.c[1]) : XLevel(y, CL) >= p
+       [] OTHER -> TRUE
+  /\ \A j \in 1..Len(n.c) : IsNilNode(n.c[j]) \/ WFX(n.c[j], CL)
+
+\* C05 (grouping part) on a REAL result for an operator string: rec = [toks, res = [tree, nerr,
+\* err], cl (custom infix levels), lowest (a registered infix operator of level 1 occurs)]
+C05A_Failures(rec) ==
+  IF rec.lowest THEN (IF rec.res.nerr > 0 THEN {} ELSE {"level_1_operator_not_reported"})
+  ELSE (IF rec.res.nerr = 0 /\ ~rec.res.err THEN {} ELSE {"operator_string_rejected"})
+       \cup (IF rec.res.nerr > 0 \/ C02_Yield(rec.toks, rec.res.tree) THEN {} ELSE {"yield"})
+       \cup (IF rec.res.nerr > 0 \/ WFX(rec.res.tree, rec.cl) THEN {} ELSE {"grouping_not_by_level"})
+
+\* roles the built-in grammar already gives to built-in tokens (seeds of parser/builder.go)
+BuiltinPrefixRole == BuiltinPrefix
+BuiltinInfixRole == DOMAIN BuiltinPrec
+BuiltinPostfixRole == {"INCREMENT", "DECREMENT"}
+---------------------------------------------------------------------------
+(* The declarative registration clause of C05 on an OBSERVED history: h is a sequence of     *)
+(* [op, a, l, res] with the REAL replies (ids for "tok", 0 accepted / -1 refused otherwise);  *)
+(* builtinIds: the numeric ids of the built-in token types.                                   *)
+RoleTaken(h, k) ==
+  LET e == h[k]
+      earlier == \E j \in 1..(k - 1) : h[j].op = e.op /\ h[j].a = e.a /\ h[j].res = 0
+  IN CASE e.op = "prefix" -> e.a \in BuiltinPrefixRole \/ earlier
+       [] e.op = "infix" -> e.a \in BuiltinInfixRole \/ earlier
+       [] e.op = "postfix" -> e.a \in BuiltinPostfixRole \/ earlier
+C05B_Failures(h, builtinIds) ==
+  LET toks == {k \in 1..Len(h) : h[k].op = "tok"}
+      regs == {k \in 1..Len(h) : h[k].op # "tok"}
+  IN (IF \A j, k \in toks : (h[j].a = h[k].a) <=> (h[j].res = h[k].res) THEN {} ELSE {"token_id_not_stable_or_not_distinct"})
+     \cup (IF \A k \in toks : h[k].res \notin builtinIds THEN {} ELSE {"token_id_collides_with_builtin"})
+     \cup (IF \A k \in regs : (h[k].res = -1) <=> RoleTaken(h, k) THEN {} ELSE {"duplicate_role_not_refused_or_free_role_refused"})
 =============================================================================
